@@ -10,6 +10,7 @@ package siml
 
 import (
 	"fmt"
+	nkeys "github.com/nspcc-dev/neo-go/pkg/crypto/keys"
 	"sort"
 	"testing"
 
@@ -67,7 +68,26 @@ func extrasBody(r *Run) {
 			for i, k := range []string{"neofs", "processing"} {
 				na := VariantBuild(k, cur+1+int64(i), -1)
 				role := w.Committee // role keys = committee keys, majority account
+				if Chance(t, "roleChangesHands", 50) {
+					// the role goes to other keys in the block right before the
+					// update: from the next block on their majority decides, the
+					// previous holders' does not
+					nk := append(append([]*nkeys.PrivateKey(nil), w.Privs[:len(w.Privs)-1]...), DetKey(fmt.Sprintf("extras/alpha/%d", i)), DetKey("extras/alpha/z"))
+					var np []any
+					for _, k := range nk {
+						np = append(np, k.PublicKey().Bytes())
+					}
+					submit(w, "designateAsRole(NeoFSAlphabet, other keys)", []Signer{w.Committee}, w.Roles, "designateAsRole", int64(noderoles.NeoFSAlphabet), np)
+					role = Multi(fmt.Sprintf("new-alphabet-%d-of-%d", len(nk)/2+1, len(nk)), len(nk)/2+1, nk)
+					r.Inject("upgrade.role_changed")
+					r.Fired("upgrade.role_changed")
+				}
 				submit(w, k+".update", []Signer{role}, w.C[k].Hash, "update", na.NEFBytes, na.ManBytes, []any{})
+				if role.Hash != w.Committee.Hash {
+					// and back to the committee's keys (what the other checks that
+					// shadow this history take for granted)
+					submit(w, "designateAsRole(NeoFSAlphabet, committee keys)", []Signer{w.Committee}, w.Roles, "designateAsRole", int64(noderoles.NeoFSAlphabet), pubs)
+				}
 			}
 		}
 		r.Checkpoint()
